@@ -32,6 +32,9 @@ def templates(r, out):
         ("sortby", {"sortby": {"part": "identity"}} if ("identity" in allp) else {}),
         ("grouplist_part", {"form": "grouplist", "mesh_on": False, "part_on": True, "sink_on": False}),
         ("sortby_sink", {"sortby": {"sink": "msink"}} if (out.get("sink") and out["sink"]["rows"]) else {}),
+        # groups named in a list, the mesh among them (no dict for the mesh: nothing of an earlier dict-form call may survive)
+        ("grouplist_mesh", {"form": "grouplist", "mesh_on": True, "part_on": False, "sink_on": False}),
+        ("grouplist_mesh_part", {"form": "grouplist", "mesh_on": True, "part_on": True, "sink_on": False}),
     ]
     return t
 
@@ -71,7 +74,9 @@ def run(ctx):
         must = [[by[a], by[b]] for a, b in (("box", "no_mesh"), ("positional_box", "grouplist_part"), ("box", "only_sink"),
                                              ("level_cap", "grouplist_part"), ("level_cap", "full"), ("cpu_list", "full"),
                                              ("cpu_list", "no_mesh"), ("value_pred", "no_part"), ("mesh_vars", "full"), ("box", "full"),
-                                             ("sortby_sink", "full"), ("sortby_sink", "only_sink"), ("sortby", "full"))]
+                                             ("sortby_sink", "full"), ("sortby_sink", "only_sink"), ("sortby", "full"),
+                                             ("level_cap", "grouplist_mesh"), ("box", "grouplist_mesh_part"), ("cpu_list", "grouplist_mesh"),
+                                             ("mesh_vars", "grouplist_mesh"))]
         if ctx.tier == "quick":
             hists = must + [[a, b] for a in r.sample(tmpl, 5) for b in r.sample(tmpl, 3)]
         else:
